@@ -226,6 +226,10 @@ func callerName(overflow bool) string {
 		}
 		count := map[string]int{}
 		for _, nm := range top {
+			// the shared visitor is part of every recursion through a pass: the pass is the site
+			if contains(nm, "compiler.(*Visitor).") || contains(nm, "compiler.Passes.") {
+				continue
+			}
 			count[nm]++
 		}
 		best, bestN := "", 0
@@ -552,6 +556,32 @@ func MapSeq[K comparable, V any](m map[K]V, site string) iter.Seq2[K, V] {
 			}
 		}
 	}
+}
+
+// RouteKeys, RouteValues and RouteAll put the iterators of package maps behind the seam:
+// `maps.Values(m)` is rewritten into `simrt.RouteValues(maps.Values(m), m, site)`.
+func RouteKeys[M ~map[K]V, K comparable, V any](_ iter.Seq[K], m M, site string) iter.Seq[K] {
+	return func(yield func(K) bool) {
+		for k := range MapSeq(map[K]V(m), site) {
+			if !yield(k) {
+				return
+			}
+		}
+	}
+}
+
+func RouteValues[M ~map[K]V, K comparable, V any](_ iter.Seq[V], m M, site string) iter.Seq[V] {
+	return func(yield func(V) bool) {
+		for _, v := range MapSeq(map[K]V(m), site) {
+			if !yield(v) {
+				return
+			}
+		}
+	}
+}
+
+func RouteAll[M ~map[K]V, K comparable, V any](_ iter.Seq2[K, V], m M, site string) iter.Seq2[K, V] {
+	return MapSeq(map[K]V(m), site)
 }
 
 // MapIter is the three-clause form used in dependency copies whose go
